@@ -230,6 +230,12 @@ main(int argc, char *argv[])
 			char model[64], ver[64];
 			if (sscanf(op + 2, "%63[^:]:%63s", model, ver) == 2)
 				ovni_thread_require(model, ver);
+		} else if (op[0] == 'a' && op[1] == 's') {
+			/* metadata API: set an attribute (as), write the metadata out now (af) */
+			ovni_attr_set_double("verif.a", (double) seq);
+			fprintf(logf, "A %u\n", seq);
+		} else if (op[0] == 'a' && op[1] == 'f') {
+			ovni_attr_flush();
 		} else if (op[0] == 'c' && op[1] == 'd') {
 			/* the program changes its working directory (nothing the tracing protocol forbids) */
 			mkdir("elsewhere", 0755);
